@@ -68,6 +68,8 @@ def harness_artifact(e):
 
     if isinstance(e, (TypeError, AttributeError, NotImplementedError)) and any(nm in str(e) for nm in PROXY_NAMES):
         return True
+    if isinstance(e, TypeError) and "ufunc" in str(e) and "not supported for the input types" in str(e):
+        return True  # a numpy ufunc without an object loop (isfinite, isnan, ...) met a proxy: real float inputs always have that loop
     tb = traceback.extract_tb(e.__traceback__)
     if tb and isinstance(e, (TypeError, AttributeError, NotImplementedError, IndexError, ValueError, KeyError)):
         inner = tb[-1].filename.replace("\\", "/")
